@@ -6,16 +6,24 @@
 (* are spelt (relative / absolute, another working directory), the process *)
 (* - and every Build(f) of the same case must give the same output id.     *)
 (*                                                                         *)
+(* The referenced sources themselves may change between builds            *)
+(* (ChangeSources: a file edited, a file added where a glob or a tree      *)
+(* finds it): the output is a function of the format AND the version of    *)
+(* the sources - a build made after the change, in a process that built    *)
+(* before it, equals the build a fresh process makes.                      *)
+(*                                                                         *)
 (* Deviation "ClockLeaks": some stamp is taken from the clock (what a      *)
 (* time.Now() in a header, or an unset package mtime, amounts to);         *)
-(* "SchedulerLeaks": the output depends on procs (block sizes, map order). *)
+(* "SchedulerLeaks": the output depends on procs (block sizes, map order); *)
+(* "HistoryLeaks": something computed from the sources is remembered by    *)
+(* the process (a memo of glob expansions, a cached file) and reused.      *)
 (***************************************************************************)
 EXTENDS Integers, Sequences, FiniteSets, TLC
 
-CONSTANTS ReproDeviations, Formats, MaxSteps
+CONSTANTS ReproDeviations, Formats, MaxSteps, MaxSrc
 
-VARIABLES env, outs, steps
-vars == <<env, outs, steps>>
+VARIABLES env, outs, steps, src, seen
+vars == <<env, outs, steps, src, seen>>
 
 TZs == {"UTC", "Asia/Kolkata", "America/St_Johns"}
 Procs == {1, 2, 16}
@@ -23,26 +31,35 @@ Styles == {"abs", "rel"}
 
 Init == /\ env = [clock |-> 0, tz |-> "UTC", procs |-> 16, style |-> "abs", pid |-> 0]
         /\ outs = <<>> /\ steps = 0
+        /\ src = 0                       \* version of the referenced sources
+        /\ seen = [p \in {} |-> 0]       \* pid -> the source version the process met at its first build
 
 Tick == env' = [env EXCEPT !.clock = @ + 1]
 SetTZ == \E z \in TZs : z # env.tz /\ env' = [env EXCEPT !.tz = z]
 SetProcs == \E n \in Procs : n # env.procs /\ env' = [env EXCEPT !.procs = n]
 SwitchStyle == \E s \in Styles : s # env.style /\ env' = [env EXCEPT !.style = s]
 NewProcess == env' = [env EXCEPT !.pid = @ + 1]
+ChangeSources == src < MaxSrc /\ src' = src + 1
 
-(* the output id: in the intended design a function of the format only (the case is fixed) *)
+(* the output id: in the intended design a function of the format and of the sources as they are now (the case is fixed) *)
 BuildId(f) ==
   <<f,
+    IF "HistoryLeaks" \in ReproDeviations /\ env.pid \in DOMAIN seen THEN seen[env.pid] ELSE src,
     IF "ClockLeaks" \in ReproDeviations THEN env.clock ELSE 0,
     IF "SchedulerLeaks" \in ReproDeviations THEN env.procs ELSE 0>>
 
-Build == \E f \in Formats : outs' = Append(outs, [fmt |-> f, id |-> BuildId(f), env |-> env]) /\ UNCHANGED env
+Build == /\ \E f \in Formats : outs' = Append(outs, [fmt |-> f, src |-> src, id |-> BuildId(f), env |-> env])
+         /\ seen' = IF env.pid \in DOMAIN seen THEN seen
+                    ELSE [p \in (DOMAIN seen) \cup {env.pid} |-> IF p = env.pid THEN src ELSE seen[p]]
+         /\ UNCHANGED <<env, src>>
 
+Quiet == UNCHANGED <<outs, seen>>
 Next == /\ steps < MaxSteps /\ steps' = steps + 1
-        /\ \/ (Tick /\ UNCHANGED outs) \/ (SetTZ /\ UNCHANGED outs) \/ (SetProcs /\ UNCHANGED outs)
-           \/ (SwitchStyle /\ UNCHANGED outs) \/ (NewProcess /\ UNCHANGED outs) \/ Build
+        /\ \/ (Tick /\ Quiet /\ UNCHANGED src) \/ (SetTZ /\ Quiet /\ UNCHANGED src) \/ (SetProcs /\ Quiet /\ UNCHANGED src)
+           \/ (SwitchStyle /\ Quiet /\ UNCHANGED src) \/ (NewProcess /\ Quiet /\ UNCHANGED src)
+           \/ (ChangeSources /\ Quiet /\ UNCHANGED env) \/ Build
 Spec == Init /\ [][Next]_vars
 
 (* rebuilding yields byte-identical output, whatever happened to the environment in between *)
-Function == \A i, j \in 1..Len(outs) : outs[i].fmt = outs[j].fmt => outs[i].id = outs[j].id
+Function == \A i, j \in 1..Len(outs) : (outs[i].fmt = outs[j].fmt /\ outs[i].src = outs[j].src) => outs[i].id = outs[j].id
 =============================================================================
